@@ -27,6 +27,20 @@ CHECKS = {
          "perturbed and every observed execution validated, not enumerated. Trusted: std::mutex/condition_variable/"
          "packaged_task semantics, the hook placement (under the queue mutex, after the change).",
     technique="TLA+ spec + TLC (safety, deadlock, liveness); trace validation of recorded real executions against the spec"),
+ "C04": dict(
+    category="model_checking",
+    text="specs/Buffer.tla models the buffer bookkeeping (capacity/written/committed, the frozen chain of auto_grow::internal, "
+         "offsets of open builders relative to the committed mark, size propagation through all parents, padding) and the "
+         "content passed in; TLC checks that header sizes equal the layout size of the content, that builder offsets stay "
+         "valid under every reserve_space outcome, and that commit/rollback/clear/purge act on exactly the documented data. "
+         "Every history TLC exports (all of bounded depth plus simulated long ones, x initial capacity 64..256 x growth mode) "
+         "is replayed on the real Buffer and builders under ASan/UBSan and the complete item sequence with content is "
+         "compared after every call.",
+    design_ref="DESIGN.md section 4, C04",
+    note="Histories are bounded (exhaustive to depth 9 / 5, simulated to depth 30); strings are lengths in the spec and "
+         "deterministic bytes in the harness; exact capacity after growth is not compared; purge/set_removed only in growth "
+         "modes no/yes; Area builders are not covered.",
+    technique="TLA+ spec + TLC; spec-to-code replay of exported API histories with per-step state comparison"),
 }
 
 NOT_APPLICABLE = {
